@@ -806,6 +806,9 @@ class ArrayOf(DataType):
         return f'ArrayOf({repr(self.members)}, {self.minlen}, {self.maxlen})'
 
     def check_type(self, value):
+        if isinstance(value, (str, bytes, dict)):
+            # these have a length and are iterable, but are no sequences of elements
+            raise WrongTypeError(f'{type(value).__name__} can not be converted to ArrayOf DataType!')
         try:
             # check number of elements
             if self.minlen is not None and len(value) < self.minlen:
@@ -901,6 +904,9 @@ class TupleOf(DataType):
         return f"TupleOf({', '.join([repr(st) for st in self.members])})"
 
     def check_type(self, value):
+        if isinstance(value, (str, bytes, dict)):
+            # these have a length and are iterable, but are no sequences of elements
+            raise WrongTypeError(f'{type(value).__name__} can not be converted to TupleOf DataType!')
         try:
             if len(value) == len(self.members):
                 return
